@@ -1192,6 +1192,10 @@ class Interp:
         if isinstance(obj, Ref) and obj.kind in ("var", "field"):
             v = self.load(obj)
         if isinstance(v, Container):
+            real = [a for a in (args or []) if not (isinstance(a, dict) and a.get("k") == "defaultarg")]
+            if real:
+                # the sizing overloads setZero(n) / setZero(rows, cols): a resize followed by zeroing
+                self.resize(obj, [self.ev(a, env) for a in real], e)
             self.record(v.name, ("*",), "setZero", None, e)
             v.bump()
             v.zeroed = True
